@@ -49,7 +49,10 @@ def strategy(tier):
         'dir': st.sampled_from(['c2s', 's2c']),
         'kind': st.sampled_from(['emit', 'emit', 'emit_cb', 'send',
                                  'send_cb', 'call']),
-        'ns': st.integers(0, 3), 'event': name, 'data': pay, 'ret': pay})
+        'ns': st.integers(0, 3), 'event': name, 'data': pay, 'ret': pay,
+        # the receiving handler raises after it was invoked (only for
+        # messages without acknowledgement): what follows must still arrive
+        'fault': st.sampled_from([False, False, False, True])})
     burst = st.lists(msg, min_size=1, max_size=4)
     return st.fixed_dictionaries({
         'aio': st.booleans(),
@@ -88,7 +91,10 @@ def _run(case, ln):
 
     def next_ret(d, ns, ev):
         q = rets.get((d, ns, ev))
-        return q.pop(0) if q else None
+        r = q.pop(0) if q else None
+        if isinstance(r, dict) and r.get('__fault__'):
+            raise RuntimeError('application handler fault')
+        return r
 
     def mk_server(ns, ev):
         if aio:
@@ -147,6 +153,9 @@ def _run(case, ln):
             kind = m['kind']
             ev = 'message' if kind.startswith('send') else m['event']
             data, ret = m['data'], m['ret']
+            if m.get('fault') and kind in ('emit', 'send'):
+                ret = {'__fault__': True}
+                labels['handler_fault'] = True
             rets.setdefault((d, ns, ev), []).append(ret)
             exp.append((ns, ev, pack_args(data)))
             if _interesting(data) or (kind in ('emit_cb', 'send_cb', 'call')
@@ -222,9 +231,11 @@ def _run(case, ln):
                                 % (list(calls[0]), slot['want']))
         if len(burst) >= 2:
             labels['burst'] = True
-    if ln.ch.bg_errors or ln.sh.bg_errors or ln.sh.swallowed:
-        raise Violation('error-during-exchange', repr(
-            (ln.ch.bg_errors + ln.sh.bg_errors + ln.sh.swallowed)[0]))
+    errs = [e for e in ln.ch.bg_errors + ln.sh.bg_errors + [
+        x[1] for x in ln.sh.swallowed + ln.ch.swallowed]
+        if 'application handler fault' not in str(e)]
+    if errs:
+        raise Violation('error-during-exchange', repr(errs[0]))
     nmsg = sum(len(b) for b in case['bursts'])
     labels['nontrivial'] = n_int >= 1 and nmsg >= 2
     labels['interesting_values'] = min(n_int, 5)
